@@ -1,7 +1,57 @@
-(* placeholder until the codec theorems land *)
-From Coq Require Import List.
-From OKE Require Import BytesLemmas.
-Theorem C02_placeholder : forall l x y px py r1 r2,
-  Bytes.lenprefix l x = Some px -> Bytes.lenprefix l y = Some py -> px ++ r1 = py ++ r2 -> x = y /\ r1 = r2.
-Proof. exact lenprefix_inj. Qed.
-Print Assumptions C02_placeholder.
+(* C02 - a wrong password never logs in.
+   PROVED so far (this file): the password enters the OPRF Finalize hash through an injective,
+   length-prefixed encoding (so a different password - bit flip, prefix, extension, embedded NUL,
+   trailing whitespace, any length up to 65535 - is a different hash input; no truncation or
+   normalisation), the blinded OPRF output is that hash of the unblinded element (independent of the
+   blind), over-long passwords are refused, the stretched OPRF output is bound into the randomized
+   password, and a response whose MAC does not verify gives InvalidLogin and nothing else.
+   NOT YET PROVED: the collision chain "client accepts with pw' <> pw  ==>  Bad" (DESIGN.md C02);
+   until then the rejection itself is decided by the near-miss battery and the cross-check of every
+   client finish against the model. *)
+From Coq Require Import List NArith.
+From OKE Require Import Bytes Suite Generated Labels Hkdf Voprf Messages Envelope TripleDH Opaque Laws Layers Transcript Accept ClientAccept.
+
+Theorem C02_password_encoding_injective :
+  forall E Sc Pk Sk (CS : Suite E Sc Pk Sk) input input' l l' ser ser',
+    i2osp_nat 2 (length input) = Some l -> i2osp_nat 2 (length input') = Some l' ->
+    length ser = length ser' ->
+    l ++ input ++ be_bytes 2 (N.of_nat (o_Noe (oprf CS))) ++ ser ++ STR_FINALIZE =
+    l' ++ input' ++ be_bytes 2 (N.of_nat (o_Noe (oprf CS))) ++ ser' ++ STR_FINALIZE ->
+    input = input' /\ ser = ser'.
+Proof. exact @finalize_input_injective. Qed.
+Print Assumptions C02_password_encoding_injective.
+
+Theorem C02_oprf_output_is_hash_of_password_and_key :
+  forall E Sc Pk Sk (CS : Suite E Sc Pk Sk), GroupLaws CS ->
+  forall input r k P, ve CS P -> vs CS r -> vs CS k ->
+    voprf_finalize (hash CS) (oprf CS) r input (o_mul (oprf CS) (o_mul (oprf CS) P r) k) =
+    match i2osp_nat 2 (length input) with
+    | None => Err (ELibrary (LOprfError OInput))
+    | Some len => Ok (h_hash (hash CS) (len ++ input ++ be_bytes 2 (N.of_nat (o_Noe (oprf CS))) ++
+                                        o_ser_e (oprf CS) (o_mul (oprf CS) P k) ++ STR_FINALIZE))
+    end.
+Proof. exact @oprf_unblind. Qed.
+Print Assumptions C02_oprf_output_is_hash_of_password_and_key.
+
+Theorem C02_long_password_refused :
+  forall E Sc Pk Sk (CS : Suite E Sc Pk Sk) st pw r ctx ids ksf,
+    (65536 <= N.of_nat (length pw))%N ->
+    o_eqb (oprf CS) (cq_blinded (cl_request st)) (cr_eval r) = false ->
+    client_login_finish CS st pw r ctx ids ksf = Err (ELibrary (LOprfError OInput)).
+Proof. exact @client_login_finish_refuses_long_password. Qed.
+Print Assumptions C02_long_password_refused.
+
+Theorem C02_stretched_output_bound :
+  forall E Sc Pk Sk (CS : Suite E Sc Pk Sk) input blind ev (f : ksf_fn) y z,
+    voprf_finalize (hash CS) (oprf CS) blind input ev = Ok y -> f y = Some z ->
+    get_password_derived_key CS input blind ev (Some f) = Ok (hkdf_extract (hash CS) None (y ++ z)).
+Proof. exact @ksf_bound. Qed.
+Print Assumptions C02_stretched_output_bound.
+
+(* no partial outputs: a failed final step yields no session key, export key or finalization *)
+Theorem C02_failure_yields_nothing :
+  forall E Sc Pk Sk (CS : Suite E Sc Pk Sk) st pw r ctx ids ksf e,
+    client_login_finish CS st pw r ctx ids ksf = Err e ->
+    forall out, client_login_finish CS st pw r ctx ids ksf <> Ok out.
+Proof. exact @rejected_yields_nothing. Qed.
+Print Assumptions C02_failure_yields_nothing.
